@@ -138,6 +138,11 @@ func scenC04(r *Run) {
 	mk("h1.example.")
 	mk("xn--e1afmkfd.example")
 	mk("::1") // the loopback literal: reachable whatever zone is attached to it
+	// neighbours that exist but that no URL of this run names: the www alias of every name used
+	// (also of the one that does not resolve) and the bare parent. Nothing may ever connect to them.
+	for _, nb := range []string{"www.h1.example", "www.h2.example", "www.nonexistent.example", "www.plain.example", "example"} {
+		mk(nb)
+	}
 	// a plaintext-only listener: nothing may ever be sent to it
 	plain := w.AddHost("plain.example")
 	plain.PlainOnly = true
@@ -244,11 +249,19 @@ func scenC04(r *Run) {
 		base := fmt.Sprintf("/redir/%d", i)
 		cases := []rel{{"next", "h2.example", "/redir/next"}, {"../up?x=1", "h2.example", "/up?x=1"}, {"./here", "h2.example", "/redir/here"},
 			{"//h1.example/other", "h1.example", "/other"}, {"?q=1", "h2.example", base + "?q=1"}, {"/abs/path", "h2.example", "/abs/path"}, {"sub/dir/", "h2.example", "/redir/sub/dir/"}}
+		// the redirecting URL may carry a query of its own (a page selector, a token): the next hop is
+		// the Location's path and query, nothing of the old query travels along, whatever the path
+		query := ""
+		if t.Chance(1, 2) {
+			query = []string{"?page=true&token=S3CR3T", "?max_id=77", "?a=1&b=2"}[t.Draw(3)]
+			cases = append(cases, rel{base, "h2.example", base}, rel{fmt.Sprint(i), "h2.example", base}, rel{"https://h1.example" + base, "h1.example", base},
+				rel{"//h1.example" + base + "/", "h1.example", base + "/"}, rel{base + "/", "h2.example", base + "/"})
+		}
 		c := cases[t.Draw(len(cases))]
 		h2 := w.Hosts["h2.example"]
 		prev := h2.Handler
 		h2.Handler = func(target string, cr *ConnRec) *Response {
-			if target == base {
+			if target == base+query {
 				return Redirect(302, c.loc)
 			}
 			return prev(target, cr)
@@ -256,7 +269,7 @@ func scenC04(r *Run) {
 		from := len(w.Conns)
 		api := t.Draw(2)
 		tk := r.Spawn("relredir", func() {
-			u := mustURL("https://h2.example" + base)
+			u := mustURL("https://h2.example" + base + query)
 			if api == 0 {
 				jtp.Get(u, AcceptAP, []string{"application/activity+json", "application/ld+json", "application/json"}, 20)
 			} else {
@@ -273,7 +286,7 @@ func scenC04(r *Run) {
 			}
 		}
 		if !seen {
-			r.Violate("C04", "target", "relative-location-not-resolved", fmt.Sprintf("a redirect from https://h2.example%s with Location %q must lead to a request for %s%s; requests seen: %v", base, c.loc, c.host, c.target, all))
+			r.Violate("C04", "target", "relative-location-not-resolved", fmt.Sprintf("a redirect from https://h2.example%s with Location %q must lead to a request for %s%s; requests seen: %v", base+query, c.loc, c.host, c.target, all))
 		}
 		r.S.Probe("c04_relative_location")
 	}
